@@ -171,7 +171,8 @@ func VerifH_C19_layout() {
 		want = fmt.Sprintf("%s/replication/%s/%s", e.base, dir, file)
 	} else {
 		a, b, c := vU64("a"), vU64("b"), vU64("c")
-		vAssume(vAnd(a < 1000, vAnd(b < 1000, c < 1000)))
+		// the first group is not capped: sequence numbers beyond 10^9 keep all their digits
+		vAssume(vAnd(a < 1<<22, vAnd(b < 1000, c < 1000)))
 		n = a*1000000 + b*1000 + c
 		vAssume(n != 0)
 		want = fmt.Sprintf("%s/replication/%s/%03d/%03d/%03d.state.txt", e.base, dir, a, b, c)
